@@ -509,6 +509,123 @@ fn op_f64(req: &J) -> J {
     }
 }
 
+// Conformance vectors for the VM's std models: each entry is computed by the real std here and by the model in Python
+// (mirsym/stdcheck.py evaluates the same expressions through the model registry); the two lists must be identical.
+fn op_stdcheck(_req: &J) -> J {
+    let mut out: Vec<String> = Vec::new();
+    let fs = [0.0f64, -0.0, 1.5, -2.5, f64::NAN, f64::INFINITY, f64::NEG_INFINITY, 1e-300, 9.3e18];
+    for a in fs {
+        for b in fs {
+            out.push(format!("total_cmp {:?}", a.total_cmp(&b)));
+            out.push(format!("min {:?}", a.min(b).to_bits()));
+            out.push(format!("max {:?}", a.max(b).to_bits()));
+            out.push(format!("copysign {:?}", a.copysign(b).to_bits()));
+        }
+        out.push(format!("signum {:?}", a.signum().to_bits()));
+        out.push(format!("is_sign_positive {:?}", a.is_sign_positive()));
+        out.push(format!("to_bits {:?}", a.to_bits()));
+        out.push(if a.sqrt().is_nan() { "sqrt NaN".to_string() } else { format!("sqrt {:?}", a.sqrt().to_bits()) });
+        if !a.is_nan() {
+            out.push(format!("clamp {:?}", a.clamp(-1.0, 2.0).to_bits()));
+        }
+    }
+    out.push(format!("consts {:?} {:?} {:?} {:?}", f64::EPSILON.to_bits(), f64::MAX.to_bits(), f64::MIN.to_bits(), f64::MIN_POSITIVE.to_bits()));
+    let is = [0i64, 1, -1, 7, -7, i64::MAX, i64::MIN];
+    for a in is {
+        out.push(format!("wrapping_abs {:?}", a.wrapping_abs()));
+        out.push(format!("unsigned_abs {:?}", a.unsigned_abs()));
+        out.push(format!("checked_abs {:?}", a.checked_abs()));
+        out.push(format!("checked_neg {:?}", a.checked_neg()));
+        out.push(format!("wrapping_neg {:?}", a.wrapping_neg()));
+        out.push(format!("signum {:?}", a.signum()));
+        for b in [1i64, -1, 2, -3, 0] {
+            out.push(format!("checked_div {:?}", a.checked_div(b)));
+            out.push(format!("checked_rem {:?}", a.checked_rem(b)));
+            if b != 0 && !(a == i64::MIN && b == -1) {
+                out.push(format!("rem_euclid {:?}", a.rem_euclid(b)));
+                out.push(format!("div_euclid {:?}", a.div_euclid(b)));
+            }
+        }
+    }
+    for a in [0usize, 1, 2, 3, 8, 1023, usize::MAX] {
+        out.push(format!("is_power_of_two {:?}", a.is_power_of_two()));
+        out.push(format!("leading_zeros {:?}", a.leading_zeros()));
+        out.push(format!("trailing_zeros {:?}", a.trailing_zeros()));
+        out.push(format!("count_ones {:?}", a.count_ones()));
+        out.push(format!("checked_neg {:?}", a.checked_neg()));
+    }
+    let ss = ["", "a", "abcabc", "a,b,,c", "héllo wörld", "xx--xx", "AbC"];
+    for s in ss {
+        for p in ["", "a", "b", ",", "xx", "bc", "ö"] {
+            out.push(format!("rsplit_once {:?}", s.rsplit_once(p)));
+            out.push(format!("replace {:?}", s.replace(p, "Z")));
+            out.push(format!("replacen {:?}", s.replacen(p, "YY", 1)));
+        }
+        out.push(format!("eq_ignore_ascii_case {:?} {:?}", s.eq_ignore_ascii_case("abc"), s.eq_ignore_ascii_case(&s.to_uppercase())));
+        out.push(format!("repeat {:?}", s.repeat(2)));
+        for k in [0usize, 1, 3] {
+            if s.is_char_boundary(k) {
+                out.push(format!("split_at {:?}", s.split_at(k)));
+                let mut t = s.to_string();
+                let tail = t.split_off(k);
+                out.push(format!("split_off {:?} {:?}", t, tail));
+                let mut t = s.to_string();
+                t.insert(k, 'Q');
+                t.insert_str(k, "é!");
+                out.push(format!("insert {:?}", t));
+                let mut t = s.to_string();
+                t.truncate(k);
+                out.push(format!("truncate {:?}", t));
+                if k < s.len() {
+                    let mut t = s.to_string();
+                    let c = t.remove(k);
+                    out.push(format!("remove {:?} {:?}", c, t));
+                }
+            }
+        }
+    }
+    for d in [0u32, 5, 9, 10, 15, 35, 36] {
+        out.push(format!("from_digit {:?} {:?}", char::from_digit(d, 10), char::from_digit(d, 36)));
+    }
+    let vs: [&[i64]; 5] = [&[], &[1], &[1, 1, 2, 2, 1], &[3, 1, 2], &[5, 6, 7, 8, 9]];
+    for v in vs {
+        let mut w = v.to_vec();
+        w.retain(|x| x % 2 == 1);
+        out.push(format!("retain {:?}", w));
+        let mut w = v.to_vec();
+        w.dedup();
+        out.push(format!("dedup {:?}", w));
+        for k in [0usize, 1, 2] {
+            if k <= v.len() {
+                let mut w = v.to_vec();
+                let t = w.split_off(k);
+                out.push(format!("vec_split_off {:?} {:?}", w, t));
+            }
+        }
+        for k in [1usize, 2, 3] {
+            out.push(format!("windows {:?}", v.windows(k).map(|x| x.to_vec()).collect::<Vec<_>>()));
+            out.push(format!("chunks {:?}", v.chunks(k).map(|x| x.to_vec()).collect::<Vec<_>>()));
+        }
+        out.push(format!("starts_with {:?} {:?}", v.starts_with(&[1, 1]), v.ends_with(&[2])));
+        out.push(format!("iter_eq {:?} {:?}", v.iter().eq([1i64, 1, 2, 2, 1].iter()), v.iter().ne(v.iter())));
+        let mut p = v.iter().peekable();
+        let a = p.peek().copied().copied();
+        let b = p.next().copied();
+        let c = p.next_if(|x| **x == 1).copied();
+        let d = p.peek().copied().copied();
+        out.push(format!("peekable {:?} {:?} {:?} {:?} {:?}", a, b, c, d, p.count()));
+        if v.len() >= 2 {
+            let mut w = v.to_vec();
+            w.swap(0, v.len() - 1);
+            out.push(format!("swap {:?}", w));
+        }
+    }
+    let r: Result<i64, i64> = Ok(3);
+    let e: Result<i64, i64> = Err(4);
+    out.push(format!("result {:?} {:?} {:?} {:?} {:?} {:?} {:?} {:?}", r.and(e), e.and(r), r.or(e), e.or(r), r.map_or(9, |x| x + 1), e.map_or(9, |x| x + 1), r.is_ok_and(|x| x == 3), e.is_err_and(|x| x == 5)));
+    J::Arr(out.into_iter().map(J::s).collect())
+}
+
 fn handle(req: &J) -> J {
     match req.get("op").str() {
         "val" => op_val(req),
@@ -520,6 +637,7 @@ fn handle(req: &J) -> J {
         "lint" => op_lint(req),
         "chartab" => op_chartab(req),
         "f64" => op_f64(req),
+        "stdcheck" => op_stdcheck(req),
         "ping" => J::obj(vec![("pong", J::Bool(true)), ("debug_assertions", J::Bool(cfg!(debug_assertions)))]),
         o => J::obj(vec![("error", J::s(format!("unknown op {}", o)))]),
     }
